@@ -891,6 +891,28 @@ fn eval_pair(lower: i32, upper: i32, states: &[St], mags: &[u128], maxes: &[u64]
                     }
                 }
             }
+            // the boundaries of the 256-bit intermediate products: liquidity x (sqrt-price width of the token's part of the range)
+            // around 2^128, 2^191, 2^192 and 2^193 — the exact amounts there exceed u64 by far, every one must be refused
+            let widths: [u128; 2] = match u.region_t {
+                Region::Below => [u.pu - u.pl, 0],
+                Region::In => [u.pu.saturating_sub(st.price), st.price.saturating_sub(u.pl)],
+                Region::Above => [0, u.pu - u.pl],
+            };
+            for w in widths {
+                if w == 0 {
+                    continue;
+                }
+                for e in [128u32, 191, 192, 193] {
+                    let x = crate::refmodel::ceil_div(&(BigUint::one() << e), &bu(w));
+                    if let Some(x) = x.to_u128() {
+                        extra.extend([x.saturating_sub(1), x, x.saturating_add(1)]);
+                    }
+                }
+                // inside the band [2^192, 2^193) / width
+                if let Some(x) = ((BigUint::from(3u32) << 191u32) / bu(w)).to_u128() {
+                    extra.push(x);
+                }
+            }
             extra.retain(|x| *x >= 1 && *x <= i128::MAX as u128 && mags.binary_search(x).is_err());
             extra.sort();
             extra.dedup();
